@@ -49,8 +49,13 @@ class ExtMixin(object):
         if base[0] in ("math", "sympy", "numpy", "np") and len(base) == 2:
             f = base[1]
             if f in _MATH1 and len(args) == 1:
+                a0 = self.num(args[0], node)
+                c0 = a0.as_const()
+                if c0 is not None and ((f in ("log", "log10", "log2") and c0 <= 0) or (f == "sqrt" and c0 < 0)) and base[0] == "math":
+                    # what Python does: math.log(0), math.sqrt(-1) raise ValueError
+                    raise RaiseSignal(ExcV(ExtV("builtins.ValueError"), [Const("math domain error")]), node)
                 try:
-                    return Num(_MATH1[f](self.num(args[0], node)), True)
+                    return Num(_MATH1[f](a0), True)
                 except ep.Unsupported as e:
                     self.err(node, str(e))
             if f == "log" and len(args) == 2:
@@ -270,6 +275,16 @@ class ExtMixin(object):
         cs = [n.as_const() for n in nums]
         if all(c is not None for c in cs):
             return Num(ep.const(min(cs) if which == "min" else max(cs)))
+        if len(nums) == 2:
+            # two numbers: the one the comparison picks, when the comparison is decided (concretely or by an assumption)
+            c = self.compare(ast.Lt(), Num(nums[0]), Num(nums[1]), node)
+            if isinstance(c, Cond):
+                c = self.assume(c)
+            if isinstance(c, bool):
+                first_smaller = c
+                pick_first = first_smaller if which == "min" else not first_smaller
+                # on a tie both are the same number; min/max return the first of equal items
+                return Num(nums[0] if pick_first else nums[1])
         return Num(ep.app(which, nums))
 
     def x_pow(self, args, kwargs, node, env):
